@@ -101,7 +101,14 @@ def run(ctx: Ctx) -> None:
         ctx.obligation("translate effect summary", False, str(e))
         gen = None
     if gen is not None:
-        b = coq.compile_props(ctx, {"GenEffects": gen}, ["GenEffects", "C10"])
+        # state that outlives a single check call and lives OUTSIDE the check modules (helpers every check calls into):
+        # memoised functions and module-level containers some function mutates
+        from .c11 import process_state
+        check_files = {r["module"].replace(".", "/") + ".py" for r in rows}
+        helper_state = [e for e in process_state(REPO) if e.split(":")[1] not in check_files and e.split(":")[1] != "refurb/main.py"]
+        gen += "Definition helper_state : list string := " + coq.coq_list([coq.coq_str(x) for x in helper_state]) + ".\n"
+        ctx.extra["helper_state"] = helper_state
+        b = coq.compile_props(ctx, {"GenEffects": gen}, ["GenEffects", "C10", "C10Helpers"])
         coq.record_build(ctx, b)
         ctx.extra["effect_rows_nontrivial"] = [r for r in rows if r["mutated_globals"] or r["ast_writes"] or r["errors_reads"] or r["foreign"]]
     rng = ctx.rng
@@ -111,6 +118,8 @@ def run(ctx: Ctx) -> None:
     groups = [stateful + [str(VERIF / "corpus" / "C04" / "kitchen.py")]]
     nested = len(groups)
     groups.append([str(VERIF / "corpus" / "C10" / "nested.py")])     # idioms of the record-keeping checks inside each other's constructs
+    same_names = len(groups)
+    groups.append([str(VERIF / "corpus" / "C10" / "same_names.py")])  # same short names, different types, looked at by different checks in both orders
     comp_dir = Path(tempfile.mkdtemp(prefix="c10-"))
     n_comp = composed_corpus(ctx, comp_dir / "composed.py")
     ctx.count("composed-idioms", n_comp)
@@ -132,10 +141,10 @@ def run(ctx: Ctx) -> None:
             continue
         codes = sorted({d[3] for d in full["out"] if d[3]})
         picks = []
-        sample_codes = codes if ctx.tier == "thorough" or gi in (nested, composed) else rng.sample(codes, min(len(codes), 6 if gi else 10))
+        sample_codes = codes if ctx.tier == "thorough" or gi in (nested, composed, same_names) else rng.sample(codes, min(len(codes), 6 if gi else 10))
         for c in sample_codes:
             picks.append(("only", [c]))
-            if ctx.tier == "thorough" or gi in (nested, composed) or rng.random() < 0.5:
+            if ctx.tier == "thorough" or gi in (nested, composed, same_names) or rng.random() < 0.5:
                 picks.append(("all-but", [c]))
             if ctx.tier == "thorough" or rng.random() < 0.3:
                 picks.append(("all-ignore", [c]))
@@ -166,4 +175,4 @@ def run(ctx: Ctx) -> None:
             ctx.report(key, f"{mode} {sel[:4]}: {len(missing)} diagnostics lost, {len(extra)} added/changed (e.g. {(missing + extra)[0][1:4] if missing + extra else 'order only'})",
                        {"files": [Path(f).name for f in groups[gi]], "mode": mode, "codes": sel, "missing": missing, "extra": extra})
     shutil.rmtree(comp_dir, ignore_errors=True)
-    ctx.resolve_broken({"effects_admissible": "interference:"}, b.first_error if b else "")
+    ctx.resolve_broken({"effects_admissible": "interference:", "helpers_share_no_state": "interference:"}, b.first_error if b else "")
